@@ -114,6 +114,7 @@ type genSpec struct {
 	prims   int // number of primitive kinds used: 1 = number, 2 = +bool, 3 = +string
 	noNil   bool
 	signed  bool // numbers are int64 (normalisation forks on the sign) instead of uint64
+	mixed   bool // also generate nodes that carry a dictionary part and a list part at once
 }
 
 // genNode draws a node shape by choice and its payload symbolically.
@@ -140,6 +141,9 @@ func genNode(name string, sp genSpec, inDict bool) *Node {
 	nPrim := len(kinds)
 	if sp.depth > 0 {
 		kinds = append(kinds, kCfg, kCfg+1) // dict flavour, list flavour
+		if sp.mixed {
+			kinds = append(kinds, kCfg+2) // named settings next to indexed ones
+		}
 	}
 	_ = nPrim
 	k := kinds[verif.Choice(name+".kind", len(kinds))]
@@ -167,6 +171,13 @@ func genNode(name string, sp genSpec, inDict bool) *Node {
 		for _, key := range sp.keys {
 			n.set(key, genNode(name+"."+key, sub, true))
 		}
+		return n
+	}
+	if k == kCfg+2 {
+		// one named setting and one indexed one (spelled with the key "0" in generic data)
+		n := nDict()
+		n.set(sp.keys[0], genNode(name+"."+sp.keys[0], sub, false))
+		n.List = append(n.List, genNode(name+".0", sub, false))
 		return n
 	}
 	n := nList()
